@@ -848,11 +848,21 @@ func runAll(scs []*scenario, par int) {
 		}(i)
 	}
 	wg.Wait()
-	// timing-class disagreements are re-run alone (up to two more times) before they count
+	// timing-class disagreements are re-run alone (up to two more times) before they count; when more than a
+	// handful of scenarios disagree it is not the machine's load, and re-running them would only cost time
+	var suspicious []int
 	for i := range scs {
-		for k := 0; k < 2 && timingSuspicious(scs[i], res[i]); k++ {
-			c19stats["rerun"]++
-			res[i] = runScenario(scs[i])
+		if timingSuspicious(scs[i], res[i]) {
+			suspicious = append(suspicious, i)
+		}
+	}
+	c19stats["timing-suspicious"] += len(suspicious)
+	if len(suspicious) <= 8 {
+		for _, i := range suspicious {
+			for k := 0; k < 2 && timingSuspicious(scs[i], res[i]); k++ {
+				c19stats["rerun"]++
+				res[i] = runScenario(scs[i])
+			}
 		}
 	}
 	for i := range scs {
